@@ -34,6 +34,15 @@ RSADictKey = t.TypedDict("RSADictKey", {
 class RSABinding(CryptographyBinding):
     ssh_type = b"ssh-rsa"
 
+    @classmethod
+    def import_from_dict(cls, value: t.Any) -> t.Any:
+        # https://www.rfc-editor.org/rfc/rfc7518#section-6.3.2
+        # "d" is required for a private key, the other private
+        # parameters can not stand without it
+        if "d" not in value and any(k in value for k in ("p", "q", "dp", "dq", "qi", "oth")):
+            raise ValueError('RSA key must include "d" if any other private parameter is present')
+        return super().import_from_dict(value)
+
     @staticmethod
     def import_private_key(obj: RSADictKey) -> RSAPrivateKey:
         if "oth" in obj:  # pragma: no cover
